@@ -205,9 +205,11 @@ func runHistory(h *history) ([]opResult, error) {
 
 // exchange checks that the two ends of one brokered connection are each other's peers and that bytes arrive complete
 // and in order, in both directions.  The mode is a function of the id, so both ends agree on it:
-//   id%3 == 0: the dialler speaks first: (id, nonce) -> echo nonce+1
-//   id%3 == 1: the ACCEPTOR speaks first, right after Accept returned (its bytes travel right behind the ack)
-//   id%3 == 2: acceptor first, then 300 KiB of patterned bulk in each direction at once (more than one yamux window)
+//
+//	id%3 == 0: the dialler speaks first: (id, nonce) -> echo nonce+1
+//	id%3 == 1: the ACCEPTOR speaks first, right after Accept returned (its bytes travel right behind the ack)
+//	id%3 == 2: acceptor first, then 300 KiB of patterned bulk in each direction at once (more than one yamux window)
+//
 // role "latebulk": after the handshake both idle 5.3 s, then the acceptor writes 1 MiB while the dialler starts
 // reading late (the write has to wait for window space long after Accept).
 func exchange(c net.Conn, o hop, idx int) string {
@@ -639,5 +641,10 @@ func init() {
 			hs = append(hs, &history{name: "late-bulk", ops: []hop{{0, 'a', 30, 0, "latebulk"}, {50, 'd', 30, 0, "latebulk"}, {0, 'd', 31, 1, "latebulk"}, {80, 'a', 31, 1, "latebulk"}}})
 			return hs, nil
 		})
+		if replay == "" {
+			// a real net/rpc plugin process: brokered connections opened from BOTH ends of a real connection
+			impl, pred := runRealCallbacks("netrpc", 3)
+			o.emit("!C06.real-callbacks proto=netrpc n=3", impl, pred)
+		}
 	})
 }
